@@ -98,6 +98,10 @@ func sqlAnchors() []anchor {
 		{Name: "g_sql_has_limit", File: sqlQuery, Func: "appendLimitQuery", Kind: "ifcond", Select: "NoLimit",
 			Header: "(l nolimit : Z)", RetTy: "bool", Out: out,
 			Syms: map[string]sym{"l": z("l"), "NoLimit": z("nolimit")}},
+		// the repair of F7: `if f.Limit != nil && *f.Limit == 0 { sub = sub.Where(goqu.L("0")) }`
+		{Name: "g_sql_limit0_empty", File: sqlQuery, Func: "buildEventQuery", Kind: "ifcond", Select: "*f.Limit == 0",
+			Header: "(present : bool) (limit : Z)", RetTy: "bool", Out: out,
+			Syms: map[string]sym{"f.Limit != nil": b("present"), "*f.Limit": z("limit")}},
 		{Name: "g_sql_since_present", File: sqlQuery, Func: "appendSinceQuery", Kind: "ifcond", Select: "since",
 			Header: "(present : bool)", RetTy: "bool", Out: out,
 			Syms: map[string]sym{"since != nil": b("present")}},
